@@ -694,6 +694,7 @@ public:
             W.beginObj();
             W.kv("name", af->getNameAsString());
             W.kv("ty", typeStr(af->getType()));
+            if (layoutOk && !ad->isDependentType() && ad->isCompleteDefinition()) W.kvn("off", (Ctx.getFieldOffset(f) + Ctx.getFieldOffset(af)) / 8);
             if (af->hasInClassInitializer() && af->getInClassInitializer()) { W.key("init"); dumpStmt(af->getInClassInitializer()); }
             W.endObj();
           }
